@@ -13,7 +13,7 @@ import tempfile
 
 from harness.core import hx, unhx, excname
 
-VOLATILE = {"last-modified", "date", "www-authenticate", "etag"}
+VOLATILE = {"last-modified", "date", "www-authenticate"}
 _apps = {}
 _root = None
 
